@@ -375,6 +375,23 @@ class HistGen:
         return dict(op=["new_unit", cls, sym, "none"], expect="ok",
                     kind="refless-unit", new_sym=sym)
 
+    def refless_multiple(self):
+        """a unit of a type WITHOUT reference unit declared as a multiple of one
+        of its (base) units: it has a definition but converts to nothing"""
+        w, rng = self.w, self.rng
+        cands = [(s, u) for s, u in w.units.items()
+                 if u["scale"] is None and "base" not in u and w.classes[u["cls"]]["ref"] is None
+                 and "items" not in w.classes[u["cls"]]]
+        if not cands:
+            return None
+        r, u = rng.choice(cands)
+        k = rng.choice([Fraction(12), Fraction(1, 1000), Fraction(1000), Fraction(5, 2)])
+        sym = w.fresh("k")
+        w.units[sym] = dict(cls=u["cls"], scale=None, dim=u["dim"], base=(r, k))
+        w.classes[u["cls"]]["units"].append(sym)
+        return dict(op=["new_unit", u["cls"], sym, "qty", rat(k), r, MODE], expect="ok",
+                    kind="refless-multiple", new_sym=sym)
+
     def _related(self, a, b):
         def anc(x):
             out = set()
